@@ -912,6 +912,15 @@ func (a *analyzer) analyzeDotimes(node *lisp.LVal, scope *Scope, currentPkg stri
 	for i := 2; i < len(node.Cells); i++ {
 		a.analyzeExpr(node.Cells[i], dotimesScope, currentPkg)
 	}
+
+	// The optional result expression -- (dotimes (var count result) ...) --
+	// is evaluated in the loop's environment once the loop is done.  It was
+	// never walked, so a name it mentions was not recorded as a reference:
+	// the minifier renamed the binding and left the mention alone, and
+	// (let ([total 0]) (dotimes (i 3 total) ...)) lost its `total`.
+	if len(bindingList.Cells) > 2 {
+		a.analyzeExpr(bindingList.Cells[2], dotimesScope, currentPkg)
+	}
 }
 
 func (a *analyzer) analyzeTest(node *lisp.LVal, scope *Scope, currentPkg string) {
